@@ -127,6 +127,9 @@ class StmtMixin:
             elif o is not None:
                 flat.append(o)
         if getattr(self, "nomerge", False) and not self.in_loop and len(flat) <= 64:
+            if getattr(self, "nomerge_mode", "split") == "returns" and len(flat) == len([o for o in outs if o is not None]) == len(outs):
+                # every branch fell through (none returned): a plain join, e.g. a switch that only computes a value
+                return self.merge_all(flat)
             return self.pack(flat)
         return self.merge_all(flat)
 
